@@ -187,6 +187,24 @@ pub fn main(args: &[String]) {
         rec_mirror(&mut file, &pos, mm);
         n += 1;
     }
+    // the catalogue seeds (rule interactions: en passant as the only move, pinned en passant, castling ...):
+    // the leaf evaluation must follow the position's true verdict there too
+    if let Some(sp) = arg_val(args, "--seeds") {
+        let mut gs = MoveGenerator::with_cache_capacity(1 << 10);
+        for pos in read_ndjson(&sp).iter().map(Pos::from_json) {
+            let r = guarded(|| {
+                let mut b2 = pos.setup();
+                let t = b2.turn();
+                let sc: Vec<i64> = (0..4u8).map(|d| evaluate::score(&mut b2, &mut gs, t, d) as i64).collect();
+                (sc, evaluate::board_material_score(&b2) as i64)
+            });
+            match r {
+                Ok((sc, st)) => writeln!(file, "{}", json!({"t": "score", "pos": pos.to_json(), "hm": 0, "scores": sc, "static": st, "mm": mm})).unwrap(),
+                Err(p) => writeln!(file, "{}", json!({"t": "panic-eval", "pos": pos.to_json(), "where": p})).unwrap(),
+            }
+            n += 1;
+        }
+    }
     // positions of random games
     let mut g = MoveGenerator::new();
     for _ in 0..games {
